@@ -21,7 +21,7 @@ CORNERS = [0.0, -0.0, 1e-8, -1e-8, 0.5e-8, -0.5e-8, 1.0, -1.0, 123456.789, -1234
 COMMENTS = [None, "", "   ", "12345", "# comment", "H 0.0 0.0 0.0", "énergie = -1.5 Eₕ", "a\tb  c",
             "title\u2028H 9.0 9.0 9.0", "form\x0cfeed", "unit\x1fsep \x1c \x85 next", "vt\x0bx"]
 BOUNDS = {"quick": "text: n in 1..3 atoms, element of atom 0 from 14 spread over the table (others from 6), 14 corner coordinate values on selected positions, 12 comments (incl. U+2028, FF, VT, unit/file separators, NEL inside the comment line); "
-                   "kernel: <= 3 atoms, all real coordinates, element pairs from 6 elements",
+                   "kernel: <= 3 atoms, all real coordinates, element pairs from 6 elements; chains of 2..300 atoms (sizes around 64, 128, 256) in 3 element patterns x 3 atom orders against the O(n^2) definition",
           "thorough": "text: all 118 elements for atom 0; kernel: <= 4 atoms, element pairs from 12 elements"}
 OUTSIDE = ("the text round trip for every float (format(x,'.8f') and numpy.loadtxt are C code; a finite corner set is exercised); comments containing a newline; "
            "floating-point evaluation of the distance test within rounding error of the cut-off")
@@ -109,6 +109,42 @@ def graph_body(n, e0, e1, e2, e3, d01, d02, d03, d12, d13, d23, cls):
     return None
 
 
+CHAIN_SIZES = [2, 5, 17, 63, 64, 65, 127, 128, 129, 131, 192, 255, 256, 257, 300]
+
+
+def chain_body(ni, pat, order):
+    """larger systems: a zig-zag chain of CHAIN_SIZES[ni] atoms (only consecutive atoms are within the cutoff, in three element patterns), listed
+    in chain order, reversed, or in a seeded random order: connectivity matrix = the O(n^2) definition, graph bonds = its upper triangle"""
+    import random
+    from stereomolgraph.coords import BondsFromDistance, Geometry
+    from stereomolgraph.graphs.mg import MolGraph
+    from stereomolgraph.periodic_table import COVALENT_RADII
+    n = CHAIN_SIZES[ni]
+    els = [[6], [6, 8], [6, 6, 16, 7]][pat]
+    els = [els[i % len(els)] for i in range(n)]
+    pos = np.array([[1.26 * i, 0.8 * (i % 2), 0.05 * (i % 3)] for i in range(n)], float)
+    idx = list(range(n))
+    if order == 1:
+        idx.reverse()
+    elif order == 2:
+        random.Random(n * 31 + pat).shuffle(idx)
+    els = [els[i] for i in idx]
+    pos = pos[idx]
+    m = BondsFromDistance().array(pos, els)
+    dist = np.sqrt(((pos[:, None, :] - pos[None, :, :]) ** 2).sum(-1))
+    rad = np.array([COVALENT_RADII[e] for e in els])
+    exp = ((dist < 1.2 * (rad[:, None] + rad[None, :])) & ~np.eye(n, dtype=bool)).astype(int)
+    if m.shape != (n, n) or (np.asarray(m) != exp).any():
+        bad = np.argwhere(np.asarray(m) != exp)[:3].tolist() if m.shape == (n, n) else m.shape
+        return f"chain of {n} atoms (pattern {pat}, order {order}): connectivity differs from the pairwise definition at {bad}; {int(exp.sum()) // 2} bonds expected, {int(np.asarray(m).sum()) // 2} found"
+    if int(exp.sum()) // 2 != n - 1:
+        return f"harness error: chain of {n} atoms has {int(exp.sum()) // 2} bonds"
+    g = MolGraph.from_geometry(Geometry(els, pos))
+    if set(g.bonds) != {frozenset((int(i), int(j))) for i, j in np.argwhere(np.triu(exp, 1))} or list(g.atoms) != list(range(n)):
+        return f"chain of {n} atoms: graph bonds are not the upper triangle of the connectivity"
+    return None
+
+
 def near_cutoff(e0, e1, delta, tmag, axis, direction):
     """two atoms at distance cutoff +- delta, the pair translated by up to 1e6 along an axis: the connectivity is that of the untranslated pair
     (the pair is 1e-6 .. 1e-3 A away from the threshold, i.e. many orders of magnitude above the resolution of float64 at 1e6)"""
@@ -143,7 +179,8 @@ def plan(tier, seed):
     else:
         params = {"n": (1, 4), "e0": (0, len(E0_QUICK)), "e1": (0, 4), "e2": (0, 3), "c0": (0, len(CORNERS)), "c1": (0, 4), "c2": (0, 4),
                   "com": (0, len(COMMENTS)), "which": (0, 4)}
-        pre = ["n > 1 or e1 == 0", "n > 2 or e2 == 0", "e0 < 6 or (c1 == 0 and c2 == 0 and which == 0)"]
+        pre = ["n > 1 or e1 == 0", "n > 2 or e2 == 0", "e0 < 3 or (c1 == 0 and c2 == 0 and which == 0)", "c1 == 0 or c2 == 0 or which == 0",
+               "com % 3 == 0 or c0 in (1, 8)", "e1 in (0, 3) or c0 == 0"]
         units.append(Sel(name="xyz_text", func="vp.props.C20:text_body", params=params, pre=pre, shard_by=["n"], timeout=1500, nontrivial="c0 > 1"))
         units.append(Sel(name="xyz_text_all_elements", func="vp.props.C20:text_body_all", timeout=1500, shard_by=["n"],
                          params={"n": (1, 3), "e0": (0, 118), "e1": (0, 2), "e2": (0, 1), "c0": (0, len(CORNERS)), "c1": (0, 1), "c2": (0, 1), "com": (0, 2), "which": (0, 1)},
@@ -154,6 +191,8 @@ def plan(tier, seed):
     if tier == "quick":
         gp["e0"] = (0, 2)
     units.append(Sel(name="from_geometry", func="vp.props.C20:graph_body", params=gp, pre=gpre, shard_by=["n"], timeout=1500, nontrivial="n > 1"))
+    units.append(Sel(name="chains", func="vp.props.C20:chain_body", params={"ni": (0, len(CHAIN_SIZES)), "pat": (0, 3), "order": (0, 3)}, pre=[], shard_by=[],
+                     timeout=1200, nontrivial="ni > 2"))
     units.append(Nat(name="distance_kernel", func="vp.shadow.geomlemmas:run_c20", timeout=1500))
     return units
 
